@@ -418,7 +418,7 @@ theorem Inv12_process_tagged (cfg : Cfg) (a : Acc) (s : St) (mt : Int) (t idx : 
     simp only
     have hua : (a.after (.process mt t) (obsOf
         { pool := s.pool.release t, tagmap := tmErase t s.tagmap, sendq := s.sendq,
-          reqs := setKey s.reqs rid0 .answered } { delivered := [rid0] })).unans
+          reqs := setKey s.reqs rid0 .answered, writing := s.writing } { delivered := [rid0] })).unans
           = a.unans.filter (fun p => p.1 != t) := by
       rw [after_pairs_process]
       simp only [obsOf, reqPairs, List.filter_nil, List.map_nil, List.append_nil]
@@ -587,12 +587,10 @@ theorem Inv12_send_drop (cfg : Cfg) (a : Acc) (s : St) (idx rid t : Nat) (q : Li
     exact SubKey.set_unsub _ h.subkey hr hn1
   · intro p hp; cases hp
 
-theorem Inv12_step_send (cfg : Cfg) (a : Acc) (s : St) (idx : Nat) (hi : Inv cfg a s) (h : Inv12 cfg a s)
-    (hen : opEnabled cfg s .send = true) :
-    specObs12 cfg a idx .send (step cfg s .send).2 = .ok ∧
-      Inv12 cfg (a.after .send (step cfg s .send).2) (step cfg s .send).1 := by
-  simp only [step, stepOp]
-  simp only [opEnabled, stepOp] at hen
+theorem Inv12_send_core (cfg : Cfg) (a : Acc) (s : St) (idx : Nat) (hi : Inv cfg a s) (h : Inv12 cfg a s)
+    (hen : ((stepSend s).2.res != .badop) = true) :
+    specObs12 cfg a idx .send (obsOf (stepSend s).1 (stepSend s).2) = .ok ∧
+      Inv12 cfg (a.after .send (obsOf (stepSend s).1 (stepSend s).2)) (stepSend s).1 := by
   unfold stepSend at hen ⊢
   cases hq : s.sendq with
   | nil => simp [hq] at hen
@@ -639,6 +637,94 @@ theorem Inv12_step_send (cfg : Cfg) (a : Acc) (s : St) (idx : Nat) (hi : Inv cfg
             (SubKey.append_other h.subkey (fun r1 hr1 => by
               rw [hr] at hr1; injection hr1 with hr1; subst hr1; exact hsub))
           exact this
+
+theorem Inv12_step_send (cfg : Cfg) (a : Acc) (s : St) (idx : Nat) (hi : Inv cfg a s) (h : Inv12 cfg a s)
+    (hen : opEnabled cfg s .send = true) :
+    specObs12 cfg a idx .send (step cfg s .send).2 = .ok ∧
+      Inv12 cfg (a.after .send (step cfg s .send).2) (step cfg s .send).1 := by
+  simp only [step, stepOp]
+  simp only [opEnabled, stepOp] at hen
+  by_cases hw : s.writing = true
+  · simp [hw] at hen
+  · simp only [hw] at hen ⊢
+    exact Inv12_send_core cfg a s idx hi h hen
+
+/-! #### the write as a yield point: `wbegin`, `wend`, `quiet` -/
+
+/-- `Inv12` does not look at the `writing` flag, nor at `must` / `inprog` -/
+theorem Inv12_congr {cfg : Cfg} {a a' : Acc} {s s' : St} (h : Inv12 cfg a s)
+    (hn : a'.nreq = a.nreq) (hf : a'.fired = a.fired) (ho : a'.owed = a.owed) (hu : a'.unans = a.unans)
+    (h2 : s'.tagmap = s.tagmap) (h3 : s'.sendq = s.sendq) (h4 : s'.reqs = s.reqs) :
+    Inv12 cfg a' s' := by
+  refine ⟨?_, ?_, ?_, ?_, ?_, ?_, ?_⟩
+  · rw [hn, h4]; exact h.nreq
+  · rw [hf, h4]; exact h.fired
+  · rw [ho, h3]; exact h.owed
+  · rw [h2]; exact h.rinj
+  · rw [h2, h4]; exact h.rlt
+  · simp only [Acc.tags, hu]; exact h.tnd
+  · rw [hu, h4]; exact h.subkey
+
+theorem specObs12_wbegin (cfg : Cfg) (a : Acc) (idx : Nat) (o : Obs) :
+    specObs12 cfg a idx .wbegin o = specObs12 cfg a idx .send o := rfl
+
+theorem Inv12_step_wbegin (cfg : Cfg) (a : Acc) (s : St) (idx : Nat) (hi : Inv cfg a s) (h : Inv12 cfg a s)
+    (hen : opEnabled cfg s .wbegin = true) :
+    specObs12 cfg a idx .wbegin (step cfg s .wbegin).2 = .ok ∧
+      Inv12 cfg (a.after .wbegin (step cfg s .wbegin).2) (step cfg s .wbegin).1 := by
+  simp only [step, stepOp]
+  simp only [opEnabled, stepOp] at hen
+  unfold stepWBegin at hen ⊢
+  by_cases hw : s.writing = true
+  · simp [hw] at hen
+  · simp only [hw] at hen ⊢
+    cases he : (stepSend s).2.wrote.isEmpty with
+    | true => simp [he] at hen
+    | false =>
+      simp only [he, if_false, Bool.false_eq_true] at hen ⊢
+      have hres := stepSend_res_of_wrote s he
+      obtain ⟨hv, hinv⟩ := Inv12_send_core cfg a s idx hi h (by rw [hres]; rfl)
+      rw [specObs12_wbegin]
+      exact ⟨hv, Inv12_congr hinv rfl rfl rfl rfl rfl rfl rfl⟩
+
+theorem Inv12_step_idle (cfg : Cfg) (a : Acc) (s s' : St) (idx : Nat) (op : Op) (h : Inv12 cfg a s)
+    (hop : op = .wend ∨ op = .quiet)
+    (h2 : s'.tagmap = s.tagmap) (h3 : s'.sendq = s.sendq) (h4 : s'.reqs = s.reqs) :
+    specObs12 cfg a idx op (obsOf s' {}) = .ok ∧ Inv12 cfg (a.after op (obsOf s' {})) s' := by
+  have hne : op ≠ .reopen := by rcases hop with e | e <;> subst e <;> simp
+  have hnp : ∀ m t, op ≠ .process m t := by intro m t; rcases hop with e | e <;> subst e <;> simp
+  have hnr : ∀ e p, op ≠ .req e p := by intro m t; rcases hop with e | e <;> subst e <;> simp
+  have hnf : ∀ rid, op ≠ .fire rid := by intro m; rcases hop with e | e <;> subst e <;> simp
+  have hdue : dueNow a op = a.owed := by rcases hop with e | e <;> subst e <;> rfl
+  refine Inv12_quiet cfg a idx op s s' {} h hne hnp hnr hnf rfl h2 (by rw [h4]) (by rw [h4]; exact h.fired)
+    (by rw [h4]; exact h.subkey) (fun _ => rfl) ?_
+  intro hfl
+  rw [hdue, h3]
+  simp only [discTags, List.filter_nil, List.map_nil, eraseAll]
+  exact h.owed hfl
+
+theorem Inv12_step_wend (cfg : Cfg) (a : Acc) (s : St) (idx : Nat) (h : Inv12 cfg a s)
+    (hen : opEnabled cfg s .wend = true) :
+    specObs12 cfg a idx .wend (step cfg s .wend).2 = .ok ∧
+      Inv12 cfg (a.after .wend (step cfg s .wend).2) (step cfg s .wend).1 := by
+  simp only [step, stepOp]
+  simp only [opEnabled, stepOp] at hen
+  unfold stepWEnd at hen ⊢
+  by_cases hw : s.writing = true
+  · simp only [hw, if_true]
+    exact Inv12_step_idle cfg a s _ idx .wend h (Or.inl rfl) rfl rfl rfl
+  · simp [hw] at hen
+
+theorem Inv12_step_quiet (cfg : Cfg) (a : Acc) (s : St) (idx : Nat) (h : Inv12 cfg a s)
+    (hen : opEnabled cfg s .quiet = true) :
+    specObs12 cfg a idx .quiet (step cfg s .quiet).2 = .ok ∧
+      Inv12 cfg (a.after .quiet (step cfg s .quiet).2) (step cfg s .quiet).1 := by
+  simp only [step, stepOp]
+  simp only [opEnabled, stepOp] at hen
+  unfold stepQuiet at hen ⊢
+  split
+  · exact Inv12_step_idle cfg a s _ idx .quiet h (Or.inr rfl) rfl rfl rfl
+  · rename_i hc; simp [hc] at hen
 
 /-! #### req -/
 
@@ -777,6 +863,9 @@ theorem Inv12_step (cfg : Cfg) (a : Acc) (s : St) (op : Op) (idx : Nat) (hi : In
     | thriftmux => exact Inv12_step_ping cfg a s idx h
     | kafka => simp [hfl] at hen
   | reopen => exact Inv12_step_reopen cfg a s idx
+  | wbegin => exact Inv12_step_wbegin cfg a s idx hi h hen
+  | wend => exact Inv12_step_wend cfg a s idx h hen
+  | quiet => exact Inv12_step_quiet cfg a s idx h hen
 
 /-! ### whole histories -/
 
@@ -788,7 +877,7 @@ theorem specGo12_split (cfg : Cfg) (h1 : List (Op × Obs)) : ∀ (a : Acc) (idx 
   | nil =>
     intro a idx op o h2 h
     simp only [List.nil_append, specGo12, Verdict_and_ok] at h
-    simpa [accAfter] using h.1
+    simpa [accAfter] using h.1.1
   | cons p h1 ih =>
     intro a idx op o h2 h
     obtain ⟨op', o'⟩ := p
@@ -798,19 +887,23 @@ theorem specGo12_split (cfg : Cfg) (h1 : List (Op × Obs)) : ∀ (a : Acc) (idx 
     have e : idx + 1 + h1.length = idx + (h1.length + 1) := by omega
     rw [e] at this; exact this
 
-theorem spec12_trace (cfg : Cfg) (hmax : 2 ≤ cfg.max) : ∀ (ops : List Op) (a : Acc) (s : St) (idx : Nat),
-    Inv cfg a s → Inv12 cfg a s → opsOk cfg s ops = true → specGo12 cfg a idx (comp.trace cfg s ops) = .ok := by
-  intro ops
-  induction ops with
-  | nil => intros; rfl
-  | cons op ops ih =>
-    intro a s idx h h12 hok
-    simp only [opsOk, Bool.and_eq_true] at hok
-    obtain ⟨hen, hrest⟩ := hok
-    obtain ⟨hv, hinv⟩ := Inv_step cfg a s op idx hmax h hen
-    obtain ⟨hv12, hinv12⟩ := Inv12_step cfg a s op idx h h12 hen
-    simp only [TComp.trace, comp, specGo12, Verdict_and_ok]
-    exact ⟨⟨hv, hv12⟩, ih _ _ (idx + 1) hinv hinv12 hrest⟩
+/-- … and the `timeout-not-discarded` clause -/
+theorem specGo12_splitM (cfg : Cfg) (h1 : List (Op × Obs)) : ∀ (a : Acc) (idx : Nat) (op : Op) (o : Obs)
+    (h2 : List (Op × Obs)), specGo12 cfg a idx (h1 ++ (op, o) :: h2) = .ok →
+      specObsM cfg (accAfter a h1) (idx + h1.length) op o = .ok := by
+  induction h1 with
+  | nil =>
+    intro a idx op o h2 h
+    simp only [List.nil_append, specGo12, Verdict_and_ok] at h
+    simpa [accAfter] using h.1.2
+  | cons p h1 ih =>
+    intro a idx op o h2 h
+    obtain ⟨op', o'⟩ := p
+    simp only [List.cons_append, specGo12, Verdict_and_ok] at h
+    have := ih _ _ op o h2 h.2
+    simp only [accAfter, List.foldl_cons, List.length_cons] at this ⊢
+    have e : idx + 1 + h1.length = idx + (h1.length + 1) := by omega
+    rw [e] at this; exact this
 
 theorem Inv12_trace (cfg : Cfg) (hmax : 2 ≤ cfg.max) : ∀ (ops : List Op) (a : Acc) (s : St),
     Inv cfg a s → Inv12 cfg a s → opsOk cfg s ops = true →
@@ -897,6 +990,9 @@ theorem fired_mono_step (a : Acc) (op : Op) (o : Obs) (h : op ≠ .reopen) (x : 
   | notify rid => exact hx
   | process m t => exact hx
   | ping => exact hx
+  | wbegin => exact hx
+  | wend => exact hx
+  | quiet => exact hx
 
 theorem fired_mono (x : Nat) : ∀ (h : List (Op × Obs)) (a : Acc), (∀ p ∈ h, p.1 ≠ .reopen) → x ∈ a.fired →
     x ∈ (accAfter a h).fired := by
@@ -1013,7 +1109,7 @@ theorem discStepsOk_of_spec12 (cfg : Cfg) (hfl : cfg.fl = .thriftmux) : ∀ (h :
     intro a idx hs
     obtain ⟨op, o⟩ := p
     simp only [specGo12, Verdict_and_ok] at hs
-    exact ⟨((specObs12_ok_iff cfg a idx op o).mp hs.1.2).2.1 hfl, ih _ _ hs.2⟩
+    exact ⟨((specObs12_ok_iff cfg a idx op o).mp hs.1.1.2).2.1 hfl, ih _ _ hs.2⟩
 
 theorem specGo12_suffix (cfg : Cfg) : ∀ (h1 h2 : List (Op × Obs)) (a : Acc) (idx : Nat),
     specGo12 cfg a idx (h1 ++ h2) = .ok → specGo12 cfg (accAfter a h1) (idx + h1.length) h2 = .ok := by
